@@ -1,14 +1,17 @@
 #!/bin/bash
-# every seeded change must be reported by the check of the property it breaks
+# every seeded change must be reported by the check of the property it breaks (runs ${JOBS:-6} at a time)
 cd "$(dirname "$0")/.."
-rc=0
-for d in ${SEEDS:-seeded/*/}; do
-  id=$(basename $d); prop=${id%%-*}
+one() {
+  d=$1; id=$(basename $d); prop=${id%%-*}
   out=$(./tools/try_patch.sh $d/patch.diff $prop 2>&1)
   if echo "$out" | grep -q "^VIOLATION property=$prop"; then
     echo "$id: reported by $prop ($(echo "$out" | grep FAILED | head -1 | sed 's/^ *rule //' | cut -c1-110))"
   else
-    echo "$id: NOT REPORTED by $prop"; rc=1
+    echo "$id: NOT REPORTED by $prop"
   fi
-done
-exit $rc
+}
+export -f one
+out=$(printf '%s\n' ${SEEDS:-seeded/*/} | xargs -P ${JOBS:-6} -I{} bash -c 'one {}' | sort)
+echo "$out"
+echo "$out" | grep -q "NOT REPORTED" && exit 1
+exit 0
